@@ -3,6 +3,7 @@ from fractions import Fraction
 from vp_common import *
 import vp_coq, kick_cases as kc
 import fp_cases as fc
+import round_cases as rnd
 
 
 def clear_of_border(n, it, o, row, margin=2):
@@ -64,7 +65,7 @@ def oracle_conservation(ctx, c, r):
             else:
                 s_in, s_out = sum(row), sum(out)
                 exact = c.stream in ("exact", "whole") and it < 4
-                tol = 0 if exact else Fraction(64, 2 ** 24) * sum(abs(v) for v in row) * Fraction(5, 4)
+                tol = 0 if exact else rnd.kick_tol(n, it, o, row, hyp)      # proved bound (C01_sm_row_kick_rounding) where it applies
                 bad = abs(s_out - s_in) > tol
             if bad:
                 jd, _ = kc.split(n, o)
@@ -88,7 +89,7 @@ def run(ctx):
                  "identity-matrix data give every column sum of the operator. Non-trivial: variant != none, e1 != 0.")
     ctx.rule += (" identity cases: nb 1..3, n 4..17, random source and target grids: target = source bit for bit for every bunch, total unchanged, "
                  "source untouched; extracted copy model (generated count/indices) exact.")
-    coq = vp_coq.full_check("C01", ctx, fams=("kick", "fp", "run"))
+    coq = vp_coq.full_check("C01", ctx, fams=("kick", "fp", "run", "round"))
     nk = 120 if ctx.quick() else 3000
     cases = kc.gen_cases(ctx, nk) + farshift_cases(ctx, 24 if ctx.quick() else 400)
     res = kc.run_cases(ctx, cases)
@@ -108,12 +109,16 @@ def run(ctx):
             dis.append(dict(case=c.replay(), detail=d[:3], sig=dict(kind="fp", stage="correspondence", dt=c.dt,
                                                                     variant=fc.VARIANTS[c.v])))
         fc.oracle_conservation(ctx, c, fres[c.cid])
+        rnd.fp3_oracle(ctx, c, fres[c.cid])      # 3-point step against the proved rounding term (C01_fp3_rounding_any_axis)
     ctx.sample(fcases[0].describe())
     ctx.sample(fcases[-1].describe())
     import ident_cases
     dis += ident_cases.ident_subcheck(ctx, "C01")
     ctx.extra["correspondence_disagreements"] = len(dis)
-    ctx.assumptions += ["exact-arithmetic model; rounding handled by the exact/tolerance streams (DESIGN 3)"]
+    rnd.trusted(ctx)
+    ctx.assumptions += ["exact-arithmetic model; the rounding clause of the row kick and of the 3-point Fokker-Planck column is bounded by "
+                        "theorem (C01_sm_row_kick_rounding, C01_fp3_rounding_any_axis) and these bounds are the oracle tolerances; the "
+                        "model-vs-implementation comparison of whole outputs still uses the exact/tolerance streams (DESIGN 3)"]
     conclude(ctx, coq, dis)
 
 
